@@ -317,7 +317,8 @@ def gen_valid(rng, suf, be):
             if h._ndims() > 3 and rng.random() < 0.7:
                 z.append(rng.choice([0.0, 2.5, 3000.0]))
             h.set_zooms(z)
-            h['goodRASFlag'] = rng.choice([1, 1, 1, 2, -1, 256])
+            # any non-zero flag means "geometry fields valid"; only 0 triggers the documented reset (S-C10a)
+            h['goodRASFlag'] = rng.choice([1, 1, 2, -1, 256, -32768, 32767, rng.choice([-1, 1]) * rng.randrange(1, 32768)])
         elif suf == 'ecat':
             h = klass(endianness=code_of(be))
             h['num_frames'] = rng.randrange(0, 50)
@@ -368,7 +369,18 @@ def gen_valid(rng, suf, be):
             elif rng.random() < 0.3:
                 h.set_data_offset(rng.choice([0, 16, 348, 1024]))
     b = randomize_free(rng, suf, h.binaryblock, be_of(h.endianness))
-    return make_hdr(suf, b, be_of(h.endianness))
+    return hdr_with_bytes(suf, b, be_of(h.endianness))
+
+
+def hdr_with_bytes(suf, b, be):
+    """a header object whose binaryblock is exactly b: built from the bytes and, where the constructor
+    normalises them (MGH), completed field by field through the public __setitem__"""
+    h = make_hdr(suf, b, be)
+    if h.binaryblock != bytes(b) and len(b) == len(h.binaryblock):
+        view = np.ndarray((), dtype=h.structarr.dtype, buffer=bytes(b))
+        for name in h.structarr.dtype.names:
+            h[name] = view[name]
+    return h
 
 
 # ---- part A: bytes, endianness, swap, eq, copy
@@ -382,6 +394,8 @@ def part_a_case(chk, suf, hdr, valid, tag, lines, recs):
     # implementation observables
     rebuilt = make_hdr(suf, b, be)
     rec['rt'] = rebuilt.binaryblock
+    if suf == 'mgh' and b[:4] == b'\0\0\0\1':      # version 1: nothing for check_fix to repair
+        rec['rt_check'] = klass(b, check=True).binaryblock
     rec['fields'] = fmt_fields(field_values(suf, rebuilt))
     guessed = klass(b, check=False) if suf == 'mgh' else klass(b, None, check=False)
     rec['guess'] = be_of(guessed.endianness)
@@ -408,7 +422,8 @@ def part_a_case(chk, suf, hdr, valid, tag, lines, recs):
     keep = cp2.binaryblock
     hdr2 = make_hdr(suf, b, be)
     hdr2[name] = (int(np.atleast_1d(hdr2[name]).ravel()[0]) + 1) % 100
-    rec['copy_eq'] = cp2.binaryblock == keep and bool(cp2 == hdr) and cp2.endianness == hdr.endianness
+    rec['copy_eq'] = (cp2.binaryblock == keep and bool(cp2 == hdr) and cp2.endianness == hdr.endianness
+                      and cp2.binaryblock == hdr.binaryblock)
     recs.append(rec)
     nb = native_be()
     lines.append(f'a{i}.f fields {suf} {be} {hx(b)}')
@@ -459,6 +474,8 @@ def part_a_compare(chk, recs, mod):
             pred = 'header built from bytes does not serialise to the same bytes'
             if suf == 'mgh' and mgh_flag_zero(b):
                 known = True
+        elif rec.get('rt_check', b) != b:
+            pred = 'header built from bytes with check=True (no problems to repair) does not serialise to the same bytes'
         elif rec['valid'] and rec['guess'] != be:
             pred = f'byte order of a valid header guessed as {code_of(rec["guess"])}, is {code_of(be)}'
         elif 'swap_obj' in rec and not (rec['eq1'] and rec['eq2']):
@@ -863,7 +880,7 @@ def run(chk: Check):
             b = bytes(rng.getrandbits(8) for _ in range(ent['size']))
             if suf == 'mgh' and mgh_flag_zero(b):
                 b = b[:28] + b'\0\1' + b[30:]
-            part_a_case(chk, suf, make_hdr(suf, b, be), False, 'random-bytes', lines, arecs)
+            part_a_case(chk, suf, hdr_with_bytes(suf, b, be), False, 'random-bytes', lines, arecs)
     # the one case that probes S-C10a
     hm = inf['classes']['mgh']['klass']()
     hm.set_data_shape((3, 4, 5))
@@ -1069,7 +1086,7 @@ def replay(chk, obj):
         if c['cls'] == 'mgh' and mgh_flag_zero(b):
             part_a_mgh_probe(fake, b, lines, recs)
         else:
-            part_a_case(fake, c['cls'], make_hdr(c['cls'], b, c['be']), c.get('valid', False), 'replay', lines, recs)
+            part_a_case(fake, c['cls'], hdr_with_bytes(c['cls'], b, c['be']), c.get('valid', False), 'replay', lines, recs)
         rec = recs[0]
         bad = (rec['rt'] != b or (rec['valid'] and rec['guess'] != c['be']) or
                ('swap_obj' in rec and (not rec['eq1'] or not rec['eq2'] or rec['swap_fields'] != rec['fields'])) or
